@@ -3,7 +3,8 @@
 Decided: no degree value reaches a radian sink (and vice versa) on any provenance branch of the coordinate
 populators; lon/lat/x/y/z roles preserved through constructors and stores; derived longitudes stored under *_lon are
 wrapped to [-180,180]; centres pass through normalisation and normalize=False conversions only receive unit-length input;
-normalisation checks examine the coordinate family their guard names; lazy keys of the 15 coordinate getters."""
+normalisation checks examine the coordinate family their guard names; lazy keys of the 15 coordinate getters.
+ERROR_TOLERANCE (the pole-snap window) and MACHINE_EPSILON keep the pinned values (constants folded statically)."""
 
 import ast
 
